@@ -342,6 +342,7 @@ fn run_chunk(rep: &mut Report, chunk: &[Sh], base: usize, tier: Tier) {
         let mut ctx = Context::default();
         let mut jobs: Vec<Job> = vec![];
         for (i, sh) in sub.iter().enumerate() {
+            crate::panics::set_context(format!("C05 shape {}", sh.show()));
             let idx = base + sci * 100 + i;
             rep.count("programs", 1);
             let nm = namer(idx);
